@@ -258,8 +258,8 @@ func (v *VM) exec() {
 		case codeSlice:
 			r, a, b := v.stack[len(v.stack)-3], v.stack[len(v.stack)-2], v.stack[len(v.stack)-1]
 			i, j := a.Int(), b.Int()
-			if j < 0 {
-				j += 1 + r.Len()
+			if codes[v.frame.N].A == 1 { // s[i:]
+				j = r.Len()
 			}
 			v.stack = v.stack[:len(v.stack)-2]
 			v.stack[len(v.stack)-1] = r.Slice(i, j)
